@@ -363,4 +363,20 @@ PROPS = {
             "`if token.persistent_id` treats the id 0 like None (ids start at 1)",
         ],
     },
+    "C26": {
+        "category": "other",
+        "harness_modes": ["crosscheck"],
+        "explanation": "BOUNDED ONLY for the property itself. The lifecycle is a protocol over interleavings of coroutines (_deploy, _inner_deploy, undeploy, the per-deployment "
+        "events); the verifier has no yield-point invariants, so no clause of C26 is proved. The only obligations are two edge contracts: deploy() leaves the deployment "
+        "holding itself (its own name in its dependency set) and get_connector returns the registered connector or None. The property is decided, bounded, by harness/C26.py: "
+        "random interleavings (600 per quick run; event-loop turns drawn at random before and inside every request and inside the fake connectors) of 1..4 concurrent deploy / "
+        "use requests followed by 0..3 concurrent undeploy requests and undeploy_all, over a wraps chain inner <- mid <- outer of instrumented fake connectors, each lazy or eager, "
+        "with an injected deploy failure in a third of the runs; the connectors' call log is checked against the five clauses of the statement. A deploy request racing with an "
+        "undeploy of the same chain is not generated (the statement does not define its outcome; the implementation answers it with 'FAILED deployment'). On the pinned tree this "
+        "check found three defects, repaired in /repo (d7b60d1, 88eb9dc).",
+        "assumptions": [
+            "assumed contract: DefaultDeploymentManager._deploy returns only for a registered deployment",
+            "bounded: nothing about interleavings is proved; cooperative scheduling is exercised only through the random event-loop turns of the driver",
+        ],
+    },
 }
